@@ -251,6 +251,9 @@ func c08Sequence(t *core.Tape) (string, string) {
 		n = 641 + t.Draw(5000)
 	default:
 		n = 6000 + t.Draw(94001)
+		if t.Draw(5) == 4 {
+			n = 100000 - t.Draw(3) // the upper end of the quantified range
+		}
 	}
 	alpha := []string{"ACGT", "ACGT", "acgt", "ACGTacgt", "ACGTNacgtn", "ACGTURYKMSWBDHVNacgtu"}[t.Draw(6)]
 	b := make([]byte, n)
